@@ -89,6 +89,8 @@ def brute_peaks(c):
                 continue
             if c['mask'] is not None and c['mask'][y, x]:
                 continue
+            if nanm[y, x]:
+                continue                        # a NaN pixel exceeds no threshold: never a peak (defect F57)
             if (by > 0 and (y < by or y >= ny - by)) or (bx > 0 and (x < bx or x >= nx - bx)):
                 continue
             if not data[y, x] > thr[y, x]:
